@@ -21,7 +21,7 @@ PROPS = {
 
     "C11": dict(
         claimed=True, design="§2 C11",
-        technique="finite decision tables of the four promotion functions evaluated over all 9x9x(type_to_check)x(return_type) cells + docs list-table comparison + CFG must-pass-through of type checks + purity rule; memoisation inventory over the operator type rules (result must depend only on the arguments); definite-assignment analysis with guard facts for class attributes assigned inside operator methods (call-scoped class state), dead-argument refinement; 9x9 evaluation of operator-specific compatibility overrides (symmetry); promotion pre-checks restrict only reviewed pairs; case result type over branch permutations",
+        technique="finite decision tables of the four promotion functions evaluated over all 9x9x(type_to_check)x(return_type) cells + docs list-table comparison + CFG must-pass-through of type checks + purity rule; memoisation inventory over the operator type rules (result must depend only on the arguments); definite-assignment analysis with guard facts for class attributes assigned inside operator methods (call-scoped class state), dead-argument refinement; 9x9 evaluation of operator-specific compatibility overrides (symmetry); promotion pre-checks restrict only reviewed pairs; case result type over branch permutations; Set.validate evaluated on three operands: result type == fold of binary_implicit_promotion in any operand order",
         text="Decides over the whole finite type domain: the implicit-promotion table equals the documented table; check_* agrees with "
              "the promotion that computes the result for every cell and every (type_to_check, return_type) pair declared by an operator "
              "class; commutative operators get order-independent result types; accepted iff a documented common type admitted by the "
@@ -32,14 +32,14 @@ PROPS = {
              "explicit reasoned exemption table."),
     "C09": dict(
         claimed=True, design="§3 C09",
-        technique="decision table of Cast.check_without_mask vs docs list-tables; symbolic evaluation of the rename branch and of the SQL cast dispatch over all type pairs; CFG must-pass-through; integer-typing lint of `/` in the conversion macros; concrete evaluation of the Time->Time_Period macro text over a calendar grid against the calendar definition of VTL periods; TRUNC-before-integer-cast rule on the evaluated cast dispatch; dataset rename rule by finite evaluation of Cast.dataset_validation; sibling agreement of the cast-to-date SQL type with the loaders' storage type; date-conversion failures mapped for every wording of the engine",
+        technique="decision table of Cast.check_without_mask vs docs list-tables; symbolic evaluation of the rename branch and of the SQL cast dispatch over all type pairs; CFG must-pass-through; integer-typing lint of `/` in the conversion macros; concrete evaluation of the Time->Time_Period macro text over a calendar grid against the calendar definition of VTL periods; TRUNC-before-integer-cast rule on the evaluated cast dispatch; dataset rename rule by finite evaluation of Cast.dataset_validation; sibling agreement of the cast-to-date SQL type with the loaders' storage type; date-conversion failures mapped for every wording of the engine; computed operands (unknown source type) also truncate before the integer cast",
         text="Decides the accept/reject table of cast (code vs the two documented tables, 8x8), that every validation path performs the "
              "check, the documented measure-renaming rule, and that representation-changing conversions are routed to existing SQL "
              "macros rather than a generic CAST. Does not decide per-value conversion results (DuckDB semantics).",
         note="docs/data_types.rst is the oracle. Known findings: 4 table cells and 2 generic-CAST pairs (see known_findings.txt)."),
     "C30": dict(
         claimed=True, design="§3 C30",
-        technique="decision table of set_decimal_config over ({unset} U [-5..45])^2 settings incl. call sequences; docs constant comparison; call-graph search for memoised dependants of the decimal type; abstract interpretation (E6) of the CSV read-type and DataFrame SELECT builders for a Number component over all source column types (text-to-decimal path, no binary-float cast); binary-float conversion lint on the Python load path; get_decimal_type evaluated after set_decimal_config for every accepted setting (disable value included)",
+        technique="decision table of set_decimal_config over ({unset} U [-5..45])^2 settings incl. call sequences; docs constant comparison; call-graph search for memoised dependants of the decimal type; abstract interpretation (E6) of the CSV read-type and DataFrame SELECT builders for a Number component over all source column types (text-to-decimal path, no binary-float cast); binary-float conversion lint on the Python load path; get_decimal_type evaluated after set_decimal_config for every accepted setting (disable value included); CFG must-pass-through of set_decimal_config in configure_duckdb_connection + written-globals inventory of the configuration module",
         text="Decides the validation half of the property exhaustively: which settings are accepted, that rejection is the documented "
              "configuration error naming the offending variable, that the published (width, scale) is the documented effective value, "
              "that outcomes do not depend on earlier settings, and that nothing derived from the decimal type is memoised or hard-coded. "
@@ -69,7 +69,7 @@ PROPS = {
              "inside DuckDB, rmtree failing (ignore_errors=True by design)."),
     "C13": dict(
         claimed=True, design="§3 C13",
-        technique="CFG path queries (must-precede / must-pass-through per loop iteration), def-use and guard-shape rules on the schedule builder, who-may-emit rule for CREATE/DROP TABLE, 2x2 truth-table comparison; finite evaluation of _ds_usage_analysis, cleanup_scheduled_datasets and the final collection loop on model dependency tables against the schedule specification; finite evaluation of load_scheduled_datasets on mixed sources; def-use provenance of the executed schedule in run(); handler field matrix + every-path traversal of the dependency analysis (shared with C12); session resource pairing of configured_connection (shared with C16)",
+        technique="CFG path queries (must-precede / must-pass-through per loop iteration), def-use and guard-shape rules on the schedule builder, who-may-emit rule for CREATE/DROP TABLE, 2x2 truth-table comparison; finite evaluation of _ds_usage_analysis, cleanup_scheduled_datasets and the final collection loop on model dependency tables against the schedule specification; finite evaluation of load_scheduled_datasets on mixed sources; def-use provenance of the executed schedule in run(); handler field matrix + every-path traversal of the dependency analysis (shared with C12); session resource pairing of configured_connection (shared with C16); the query list returned by SQLTranspiler.visit_Start is the one list appended to per statement (statement order == schedule index)",
         text="Decides the code-shape facts the load/execute/release argument rests on: per-statement ordering load < CREATE < cleanup on "
              "every path of an iteration with the loop's own index; numbering agreement between DAG, transpiler and executor; a single "
              "owner for table creation and release; once-only load; release scheduled at last_consumer.get(name, producer); no early exit "
@@ -79,7 +79,7 @@ PROPS = {
              "functions are reshaped."),
     "C14": dict(
         claimed=True, design="§3 C14",
-        technique="def-use (single reaching definition) of the fetch query, CFG dominance, decision-table evaluation of save_datapoints_duckdb over format x select_sql x delete; finite evaluation of the scalar writer on falsy values; output-folder threading rule over the execution modules; no-data rule over everything reachable from run()'s structure loader",
+        technique="def-use (single reaching definition) of the fetch query, CFG dominance, decision-table evaluation of save_datapoints_duckdb over format x select_sql x delete; finite evaluation of the scalar writer on falsy values; output-folder threading rule over the execution modules; no-data rule over everything reachable from run()'s structure loader; row filter of the representation UPDATE evaluated on NULL patterns (shared with C04)",
         text="Decides that the file and the in-memory DataFrame are produced by the same SELECT, that the file sink copies that SELECT for "
              "every output format into <dataset>.<format> with the matching FORMAT, that no in-memory data is attached on the file path, "
              "that the time-period representation step precedes both sinks, and that the scalar file receives exactly the Scalars of the "
@@ -97,7 +97,7 @@ PROPS = {
 
     "C12": dict(
         claimed=True, design="§3 C12",
-        technique="AST-node x visitor-method matrix (E7) for the dependency analysis, class-filter agreement, attribute-read parity, CFG must-pass-through, per-statement state reset paths, interprocedural operand-mutation analysis (E2) over all Operators validation methods; path form of the dependency traversal (field-present specialisation, pure kind-test guards, inherited handlers); alias-after-operand; UDO body evaluated on a copy (def-use + CFG); effect analysis with the shared structure tables as origins (no transpiler / structure-visitor method mutates a stored structure); class-state definite assignment (shared with C11)",
+        technique="AST-node x visitor-method matrix (E7) for the dependency analysis, class-filter agreement, attribute-read parity, CFG must-pass-through, per-statement state reset paths, interprocedural operand-mutation analysis (E2) over all Operators validation methods; path form of the dependency traversal (field-present specialisation, pure kind-test guards, inherited handlers); alias-after-operand; UDO body evaluated on a copy (def-use + CFG); effect analysis with the shared structure tables as origins (no transpiler / structure-visitor method mutates a stored structure); class-state definite assignment (shared with C11); effect analysis of every InterpreterAnalyzer.visit_* method with `self.visit(...)` results as fresh holders of shared structure parts (instance-attribute hops followed)",
         text="Decides the structural conditions of order independence: the dependency analysis descends into every operand-bearing field of "
              "every AST node class; the statements it numbers are exactly those the sorter permutes; names defined with ':=' and '<-' are "
              "resolved alike; redefinition and cycle errors are raised on every path whatever the order; analyser state is reset between "
@@ -136,7 +136,7 @@ PROPS = {
 
     "C32": dict(
         claimed=True, design="§3 C32",
-        technique="writer/reader agreement between SQL error('…') texts and the ordered substring decision list of the error mappers; enclosing-handler analysis of data-evaluating execute sites reachable from execute_queries; bare-raise and visitor-coverage inventory on the execution path; non-message guards of mapper branches evaluated (E6) per execution site (statement text vs the empty text of the fetch site); macro-availability rule: macros called by load/fetch SQL vs the conditions under which execute_queries adds them to the installed closure; dataset-form vs classifier/structure-dispatcher contradiction rule over the node-class matrix; the repository's own macro-library parser evaluated (E6) on the real .sql files against a comment/string-aware reading; C26's constructibility rule on the error mappers; per-statement analyser state rule shared with C12; partial-operation lint of the error mappers; finite evaluation of scalar output formatting; typed-macro / connect-config agreement; every-path-raises rule for duckdb handlers; is_re2_incompatible evaluated over construct combinations; null-test dominance in _normalize_scalar_value (CFG); _round_significant evaluated over the kinds of float the engine can return (total, no raise)",
+        technique="writer/reader agreement between SQL error('…') texts and the ordered substring decision list of the error mappers; enclosing-handler analysis of data-evaluating execute sites reachable from execute_queries; bare-raise and visitor-coverage inventory on the execution path; non-message guards of mapper branches evaluated (E6) per execution site (statement text vs the empty text of the fetch site); macro-availability rule: macros called by load/fetch SQL vs the conditions under which execute_queries adds them to the installed closure; dataset-form vs classifier/structure-dispatcher contradiction rule over the node-class matrix; the repository's own macro-library parser evaluated (E6) on the real .sql files against a comment/string-aware reading; C26's constructibility rule on the error mappers; per-statement analyser state rule shared with C12; partial-operation lint of the error mappers; finite evaluation of scalar output formatting; typed-macro / connect-config agreement; every-path-raises rule for duckdb handlers; is_re2_incompatible evaluated over construct combinations; null-test dominance in _normalize_scalar_value (CFG); _round_significant evaluated over the kinds of float the engine can return (total, no raise); registry SQL of round / trunc with a component as precision casts the value operand to DOUBLE",
         text="Decides the structural conditions under which an execution failure can surface as a VTL error: every error text the "
              "engine's own SQL can raise is claimed by the intended branch of the mapper serving its execution site, every branch "
              "returns a coded VTL exception, statements that evaluate data are executed under a duckdb.Error handler that maps, no "
@@ -159,7 +159,7 @@ PROPS = {
 
     "C08": dict(
         claimed=True, design="§3 C08",
-        technique="macro-table extraction from the .sql libraries + integer evaluation of the parsed period-limit and period-shift expressions with DuckDB's // and % semantics over all (period, shift in -60..60) cells vs calendar arithmetic + sibling limit-table comparison + macro call-site/signature agreement; Date timeshift expression obtained by E6 and evaluated by the concrete SQL evaluator over a calendar grid (round trip, injectivity); time_agg macro text vs the calendar oracle (sa/calx.py); finite evaluation (datetime / calendar as primitives) of the Python calendar helpers over every leap-rule class of 1900-2100 against a calendar oracle; spelling grid; getyear template evaluated over a period grid; Python period patterns folded from their constant fragments and matched against the PeriodDuration limits",
+        technique="macro-table extraction from the .sql libraries + integer evaluation of the parsed period-limit and period-shift expressions with DuckDB's // and % semantics over all (period, shift in -60..60) cells vs calendar arithmetic + sibling limit-table comparison + macro call-site/signature agreement; Date timeshift expression obtained by E6 and evaluated by the concrete SQL evaluator over a calendar grid (round trip, injectivity); time_agg macro text vs the calendar oracle (sa/calx.py); finite evaluation (datetime / calendar as primitives) of the Python calendar helpers over every leap-rule class of 1900-2100 against a calendar oracle; spelling grid; getyear template evaluated over a period grid; Python period patterns folded from their constant fragments and matched against the PeriodDuration limits; row filter of the loader's normalising UPDATE evaluated over the spelling grid (shared with C21)",
         text="Decides the arithmetic clauses of the calendar property that live in this repository: period limits must be year-aware for "
              "weeks and days, Python and SQL must agree on them, the carry/modulo arithmetic of period shifting must equal calendar "
              "arithmetic for every period number and every shift in -60..60 (so shifting by n then -n is the identity and distinct "
@@ -179,7 +179,7 @@ PROPS = {
              "periods accepted, reversed intervals accepted, documented Time forms rejected, three wrong documented examples)."),
     "C21": dict(
         claimed=True, design="§3 C21",
-        technique="table agreement across five code sites + docs; Python renderers lowered by the finite decision-table evaluator and SQL macros evaluated from their parsed text on every (indicator, period number, leap/common year); round trip through the parsed normalisation macro and the load regex; spelling grid (family x padding x case) through the parsed normalisation macro; macro availability shared from C32; def-use rule on the Python literal normaliser; sequential written-globals inventory over the time-handling modules; canonicalisation under VTL_SKIP_LOAD_VALIDATION (CFG specialised under the switch)",
+        technique="table agreement across five code sites + docs; Python renderers lowered by the finite decision-table evaluator and SQL macros evaluated from their parsed text on every (indicator, period number, leap/common year); round trip through the parsed normalisation macro and the load regex; spelling grid (family x padding x case) through the parsed normalisation macro; macro availability shared from C32; def-use rule on the Python literal normaliser; sequential written-globals inventory over the time-handling modules; canonicalisation under VTL_SKIP_LOAD_VALIDATION (CFG specialised under the switch); row filter of the loader's normalising UPDATE evaluated over the spelling grid",
         text="Decides that the four output formats are named consistently everywhere, that Python and SQL render every period of every "
              "indicator identically (or raise the same VTL error), that every rendered value normalises back to the same canonical, "
              "accepted period, that documented input spellings normalise to canonical periods, and that no format bypasses the "
@@ -189,7 +189,7 @@ PROPS = {
 
     "C20": dict(
         claimed=True, design="§3 C20",
-        technique="set comparison of coded rejections reachable (call graph) from the pandas validator vs the DuckDB loaders; regular-language symmetric difference (product automata with witnesses) of the two sides' temporal patterns; CFG ordering of the duplicate check; CFG must-pass-through of run()'s post-load checks (shared with C19); shared Integer CSV guard rule; spelling grid with null-from-value clause; memoised functions reading files; LIMIT-before-filter lint of the validation queries (shared with C19)",
+        technique="set comparison of coded rejections reachable (call graph) from the pandas validator vs the DuckDB loaders; regular-language symmetric difference (product automata with witnesses) of the two sides' temporal patterns; CFG ordering of the duplicate check; CFG must-pass-through of run()'s post-load checks (shared with C19); shared Integer CSV guard rule; spelling grid with null-from-value clause; memoised functions reading files; LIMIT-before-filter lint of the validation queries (shared with C19); configured-call rule for pandas read_csv on the validation side (keep_default_na=False, explicit na_values)",
         text="Decides agreement of the two sibling validators at the level where it is a property of the code's shape: both perform the "
              "same rejecting checks, both check duplicates on cast/normalised values, and the regular languages they accept for Date, "
              "Time and Time_Period are compared exactly, with a witness string for every difference. Automata quantify over all strings.",
@@ -197,7 +197,7 @@ PROPS = {
              "Four known findings (extra columns; Date, Time and Time_Period language differences)."),
     "C18": dict(
         claimed=True, design="§3 C18",
-        technique="CFG must-pass-through on the three loaders; per-type SQL of the CSV and DataFrame/Parquet SELECT builders obtained by lowering both builders over type x nullable x source type, compared for rejecting guards and for the Number conversion chain; header-order binding via C33; per-type comparison of the value-changing functions applied by the CSV and DataFrame/Parquet SELECT builders (E6); exact-carrier rule for the CSV read type; TIMESTAMP decision evaluated on model columns; model-connection evaluation of the fetch SELECT; partial-operation lint of the load error mapper; handle_sdmx_columns evaluated over header x structure combinations; CREATE TABLE vs cast-target override agreement per loader; fetch probe predicate evaluated on model rows (sub-second fractions); exact Integer carrier of the DataFrame loader",
+        technique="CFG must-pass-through on the three loaders; per-type SQL of the CSV and DataFrame/Parquet SELECT builders obtained by lowering both builders over type x nullable x source type, compared for rejecting guards and for the Number conversion chain; header-order binding via C33; per-type comparison of the value-changing functions applied by the CSV and DataFrame/Parquet SELECT builders (E6); exact-carrier rule for the CSV read type; TIMESTAMP decision evaluated on model columns; model-connection evaluation of the fetch SELECT; partial-operation lint of the load error mapper; handle_sdmx_columns evaluated over header x structure combinations; CREATE TABLE vs cast-target override agreement per loader; fetch probe predicate evaluated on model rows (sub-second fractions); exact Integer carrier of the DataFrame loader; provenance rule: source types handed to the select-list builder come from the engine's description of the source",
         text="Decides the structural conditions for the three input forms to behave alike: one schema builder and one post-load "
              "validation on every loader's success path, failures mapped and the table dropped, identical rejecting guards per "
              "component type in the two SELECT builders, Number always converted from text, CSV columns bound by header order.",
@@ -206,7 +206,7 @@ PROPS = {
 
     "C17": dict(
         claimed=True, design="§3 C17",
-        technique="lock-coverage analysis of every access to the compiled parser's global buffer (lexical with-regions + caller-side coverage via the call graph); inventory of process-global state (module globals, class attributes, module-level containers) with writers/readers intersected with API reachability and classified; def-use of the session directory name; conditional classification re-checked against dynamically dispatched visitor methods; hand-rolled cache detector; module-level objects mutated through aliases; class-level mutable defaults mutated through an instance are inventoried as process globals",
+        technique="lock-coverage analysis of every access to the compiled parser's global buffer (lexical with-regions + caller-side coverage via the call graph); inventory of process-global state (module globals, class attributes, module-level containers) with writers/readers intersected with API reachability and classified; def-use of the session directory name; conditional classification re-checked against dynamically dispatched visitor methods; hand-rolled cache detector; module-level objects mutated through aliases; class-level mutable defaults mutated through an instance are inventoried as process globals; dependency-analysis visit methods count as API-reachable writers",
         text="Decides the structural conditions of thread safety that are visible in the code: the parser's single global buffer is only "
              "touched under the re-entrant parser_lock; every piece of process-global state on an API path is either protected, "
              "environment-derived, or reported; per-call resources have per-call unique names. A data race needs one specific "
@@ -215,7 +215,7 @@ PROPS = {
              "class attributes used as scratch variables), three demonstrated with forced interleavings (triage/race_demo.py)."),
     "C10": dict(
         claimed=True, design="§3 C10",
-        technique="def-use provenance of structure objects from interpreter.visit() to the returned Dataset/Scalar; AST shape rule on the fetch projection; who-may-write rule over structure fields (execution pipeline) and reviewed-writer table for role/nullable; structure model (E6) of membership (validator vs structure builder vs SELECT list); row-multiplicity rule for exists_in (JOIN keys vs identifiers of the probed operand); finite evaluation of If.validate over component nullability; vtl_tp_shift cells (shared with C08); operand-mutation effect analysis over the analytic / aggregation / time validators (shared with C12); declared measures == delivered measure columns for dataset-level analytic operators and for isnull (both sides evaluated)",
+        technique="def-use provenance of structure objects from interpreter.visit() to the returned Dataset/Scalar; AST shape rule on the fetch projection; who-may-write rule over structure fields (execution pipeline) and reviewed-writer table for role/nullable; structure model (E6) of membership (validator vs structure builder vs SELECT list); row-multiplicity rule for exists_in (JOIN keys vs identifiers of the probed operand); finite evaluation of If.validate over component nullability; vtl_tp_shift cells (shared with C08); operand-mutation effect analysis over the analytic / aggregation / time validators (shared with C12); declared measures == delivered measure columns for dataset-level analytic operators and for isnull (both sides evaluated); Set.validate evaluated on three operands over type / nullability triples (shared with C11)",
         text="Decides the structural clause of the property: run() returns the very structure objects its semantic pass (configured like "
              "semantic_analysis()) produced; the fetch query projects the declared components in declared order (no physical-order "
              "SELECT * when components are declared); nothing in the execution pipeline rewrites type/role/nullability/components of "
@@ -247,7 +247,7 @@ PROPS = {
              "3.0 written as 3."),
     "C23": dict(
         claimed=True, design="§3 C23",
-        technique="lexical/brace-matched analysis of bindings.cpp (ParserState members vs resets before parser->start(), listener installation); statement-CFG must-pass-through / must-precede rules on the function that calls parse(); call-graph parse-path set checked for memoisation decorators and for process-global containers without per-parse reset (globals inventory); acquire/release pairing of the parser lock on normal and exceptional exits (incl. generator context managers); raise-site inventory with grammar-exhaustiveness of ctx_id dispatch chains (ANTLR .g4 reader); inventory of import-time instances of mutable in-repo classes used on the parse path; CFG dominance of the per-parse reset over every call that reaches a user of the container; lock obligation attributed to the branch of an acquire(timeout) condition that holds the lock; taint rule: caller text never the receiver of str.format; coded-exception sites of the AST modules (code catalogued, placeholders supplied; shared with C26); sequential written-globals inventory over vtlengine.AST",
+        technique="lexical/brace-matched analysis of bindings.cpp (ParserState members vs resets before parser->start(), listener installation); statement-CFG must-pass-through / must-precede rules on the function that calls parse(); call-graph parse-path set checked for memoisation decorators and for process-global containers without per-parse reset (globals inventory); acquire/release pairing of the parser lock on normal and exceptional exits (incl. generator context managers); raise-site inventory with grammar-exhaustiveness of ctx_id dispatch chains (ANTLR .g4 reader); inventory of import-time instances of mutable in-repo classes used on the parse path; CFG dominance of the per-parse reset over every call that reaches a user of the container; lock obligation attributed to the branch of an acquire(timeout) condition that holds the lock; taint rule: caller text never the receiver of str.format; coded-exception sites of the AST modules (code catalogued, placeholders supplied; shared with C26); sequential written-globals inventory over vtlengine.AST; total-predicate rule for the file-system probe of load_vtl on possibly-script text",
         text="Decides the structural clauses of the parser property: every piece of the C++ parser's global state is reset per parse and "
              "errors of lexer and parser are collected; the Python side reads this parse's error after parse() and raises "
              "VTLSyntaxError with the parser's own position before the tree is used, on every path; no function on the parse path "
@@ -259,7 +259,7 @@ PROPS = {
              "optional parts are counted, not decided. Eight known findings (built-in exceptions for grammar-valid constructs)."),
     "C03": dict(
         claimed=True, design="§3 C03",
-        technique="typed field-read inventory of the SQL transpiler for Aggregation; paired-field rule (grouping/grouping_op); CFG must-reach of the translated having condition to the builder's HAVING in both aggregation paths; def-use provenance of the group-identifier lists (operand structure vs statement output structure); who-may-call rule (no WHERE on the aggregating builder); registry templates vs the grammar's aggregate operators (same-name rule); clause-scope coverage of the translated having / aggregate / grouping expressions; structure model (E6): Aggregation.validate vs the StructureVisitor's aggregation builder; decision table of the type-aware aggregate override; path form of the dependency traversal for aggregations; unknown-name resolution evaluated; time_agg grouping-key macro evaluated against the calendar (shared with C08)",
+        technique="typed field-read inventory of the SQL transpiler for Aggregation; paired-field rule (grouping/grouping_op); CFG must-reach of the translated having condition to the builder's HAVING in both aggregation paths; def-use provenance of the group-identifier lists (operand structure vs statement output structure); who-may-call rule (no WHERE on the aggregating builder); registry templates vs the grammar's aggregate operators (same-name rule); clause-scope coverage of the translated having / aggregate / grouping expressions; structure model (E6): Aggregation.validate vs the StructureVisitor's aggregation builder; decision table of the type-aware aggregate override; path form of the dependency traversal for aggregations; unknown-name resolution evaluated; time_agg grouping-key macro evaluated against the calendar (shared with C08); effect analysis of the interpreter's aggregation / having handlers (no mutation of the shared parts of an operand structure, instance-attribute hops followed; shared with C12)",
         text="Decides the structural clauses of aggregation: no part of the aggregation syntax is ignored by the SQL generation; the "
              "grouping list is interpreted with its by/except/all operator; a having condition cannot be dropped on any path; the "
              "identifiers that define the groups come from the operand and the grouping clause, not from the statement's final "
@@ -269,7 +269,7 @@ PROPS = {
              "DuckDB error). Null handling inside DuckDB's aggregates is trusted."),
     "C04": dict(
         claimed=True, design="§3 C04",
-        technique="typed field-read inventory for JoinOp/NvlJoinPair; constant folding of the join-keyword expression over the grammar's join tokens; sibling-site agreement in visit_JoinOp (FULL JOIN key coalescing in SELECT and ON; nvl defaults in every projection branch); CFG rule on the per-statement reset of join scratch state with wrapper summaries; restoring-context-manager rule for attribute rebinding; join model: abstract interpretation (E6) of Operators.Join.*.validate and SQLTranspiler.visit_JoinOp on small operand structures, comparing SELECT list with the semantic components and every ON clause with the relational definition (keys, referenced operand, join type); CFG rule alias-recorded-after-operand; finite evaluation of the join prefix stripping; Alias.validate evaluated for text and registered-dataset aliases; row filter of the output-representation UPDATE evaluated on outer-join NULL patterns",
+        technique="typed field-read inventory for JoinOp/NvlJoinPair; constant folding of the join-keyword expression over the grammar's join tokens; sibling-site agreement in visit_JoinOp (FULL JOIN key coalescing in SELECT and ON; nvl defaults in every projection branch); CFG rule on the per-statement reset of join scratch state with wrapper summaries; restoring-context-manager rule for attribute rebinding; join model: abstract interpretation (E6) of Operators.Join.*.validate and SQLTranspiler.visit_JoinOp on small operand structures, comparing SELECT list with the semantic components and every ON clause with the relational definition (keys, referenced operand, join type); CFG rule alias-recorded-after-operand; finite evaluation of the join prefix stripping; Alias.validate evaluated for text and registered-dataset aliases; row filter of the output-representation UPDATE evaluated on outer-join NULL patterns; FullJoin.identifiers_validation evaluated on identifier-set relations (equal / subset / overlap)",
         text="Decides the structural clauses of joins: using / nvl / every clause are consumed; the four join operators select four "
              "different SQL joins; full-join keys are coalesced across the joined operands wherever the joined side is referenced; "
              "join scratch state cannot leak from one statement into the next; nvl defaults apply in every projection branch. Found "
@@ -277,7 +277,7 @@ PROPS = {
         note="The choice of the left-hand alias of ON clauses for inner/left joins is not decided (seeded change C04_1 is missed)."),
     "C06": dict(
         claimed=True, design="§3 C06",
-        technique="typed field-read inventory for Analytic/Windowing/OrderBy; paired-field rule (partition_by/partition_op, bounds/modes); guard-emission pairing on the CFG of the OVER-clause builder (strict ORDER BY guard); registry templates vs the grammar's analytic operators (same-name rule, sibling shape agreement); evaluation of the window-bound formatter over all bound shapes; abstract interpretation (E6) of visit_Windowing over every frame shape (offsets 0-3, unbounded, current; data points / range; date ordering) against the offset semantics of the frame; decision table (E6) of the AST constructor's window-limit ordering; spelling grid; window-kind comparisons vs grammar token texts; dependency handlers of analytic nodes (field matrix + every-path traversal, shared with C12); _resolve_udo_name evaluated on swapped / shifted operator bindings (no variable capture); declared measures of Analytic.validate == measure columns of the dataset-level analytic SELECT (both evaluated, 1 and 2 measures; shared with C10)",
+        technique="typed field-read inventory for Analytic/Windowing/OrderBy; paired-field rule (partition_by/partition_op, bounds/modes); guard-emission pairing on the CFG of the OVER-clause builder (strict ORDER BY guard); registry templates vs the grammar's analytic operators (same-name rule, sibling shape agreement); evaluation of the window-bound formatter over all bound shapes; abstract interpretation (E6) of visit_Windowing over every frame shape (offsets 0-3, unbounded, current; data points / range; date ordering) against the offset semantics of the frame; decision table (E6) of the AST constructor's window-limit ordering; spelling grid; window-kind comparisons vs grammar token texts; dependency handlers of analytic nodes (field matrix + every-path traversal, shared with C12); _resolve_udo_name evaluated on swapped / shifted operator bindings (no variable capture); declared measures of Analytic.validate == measure columns of the dataset-level analytic SELECT (both evaluated, 1 and 2 measures; shared with C10); existential TIMESTAMP decision of the DataFrame loader (shared with C18)",
         text="Decides the structural clauses of analytic invocations: partition, order, window and parameters all reach the OVER "
              "clause; `partition except` is honoured wherever the partition is used; ORDER BY is emitted exactly when the script "
              "has an order by and the frame exactly when it has a window; every analytic operator is the SQL window function of the "
@@ -296,7 +296,7 @@ PROPS = {
         note="SQL three-valued logic is an oracle in the checker. check_datapoint `components` is validated semantically only (reasoned exemption)."),
     "C28": dict(
         claimed=True, design="§3 C28",
-        technique="CFG must-pass-through on the interpreter's statement loop (1-3-3-6 before store); def-use from ViralPropagationDef fields to the rule constructor and rule-field read inventory; table extraction (_AGG_BINARY/_AGG_GROUP vs grammar tokens); exact rational evaluation of the parsed two-operand SQL forms for associativity/commutativity vs the N-ary fold; structural order of CASE arms; order lint + paired-field rule for the group/window forms; call-site inventory of vp_* helpers per operator handler; UNION ALL rule on row sets gathered for a propagation reduction; viral-attribute shapes through interpreter and StructureVisitor models; enumerated CASE generated and evaluated for all value pairs; group form lowered per rule kind; aggregation structure model (viral projection); merged_viral_attribute_names evaluated over all occurrence patterns in 2 and 3 operands",
+        technique="CFG must-pass-through on the interpreter's statement loop (1-3-3-6 before store); def-use from ViralPropagationDef fields to the rule constructor and rule-field read inventory; table extraction (_AGG_BINARY/_AGG_GROUP vs grammar tokens); exact rational evaluation of the parsed two-operand SQL forms for associativity/commutativity vs the N-ary fold; structural order of CASE arms; order lint + paired-field rule for the group/window forms; call-site inventory of vp_* helpers per operator handler; UNION ALL rule on row sets gathered for a propagation reduction; viral-attribute shapes through interpreter and StructureVisitor models; enumerated CASE generated and evaluated for all value pairs; group form lowered per rule kind; aggregation structure model (viral projection); merged_viral_attribute_names evaluated over all occurrence patterns in 2 and 3 operands; _enumerated_single_case evaluated for rules with and without an else (unmatched value takes the default / NULL)",
         text="Decides the structural clauses of viral propagation: a result with a rule-less viral attribute cannot be stored; every "
              "part of a rule definition reaches the SQL generation; the four aggregate functions are in both tables and a two-operand "
              "form folded over N operands is associative and commutative or has its own N-ary form; two-value clauses are tested "
